@@ -256,7 +256,11 @@ def judge(run, cases, model, cres, exe, drv, limit):
                 run.bump("drift:duplicate-explicit-indexes-not-compared")
             else:
                 a, b = sorted(c["objs"]), sorted(m["objs"])
-                if a != b:
+                keys = [tuple(l.split()[i] for i in (1, 4)) for l in b if l.startswith("O ") and 5 <= int(l.split()[1]) <= 12]
+                if a != b and len(set(keys)) != len(keys):
+                    run.violation("merge-equal-cache-size-overwritten", "two cache levels of the same type with identical cpusets are merged by merge_insert_equal(), which overwrites cache.size with the line size (topology.c: old->attr->cache.size = new->attr->cache.linesize)",
+                                  replay_text(desc, "impl:\n%s\nmodel:\n%s\n" % ("\n".join(x for x in a if x not in set(b))[:600], "\n".join(x for x in b if x not in set(a))[:600])))
+                elif a != b:
                     da = [l for l in a if l not in set(b)][:6]
                     db = [l for l in b if l not in set(a)][:6]
                     run.violation("correspondence:structure", "loaded objects differ from those written in %r" % desc[:100],
@@ -270,6 +274,9 @@ def judge(run, cases, model, cres, exe, drv, limit):
                     fl, why = int(mm.group(1)), mm.group(2)
                     if why == "reimport-rejected" and (fl & 1) and "Cache:" in r:
                         run.violation("roundtrip-noextended-cache-reimport", "export with NO_EXTENDED_TYPES prints caches as 'Cache:n', which hwloc_type_sscanf of this version rejects: the export does not load back",
+                                      replay_text(desc, r))
+                    elif why == "not-fixpoint" and (fl & 13) and r.split(" -> ")[0].count("Group:") > r.split(" -> ")[-1].count("Group:"):
+                        run.violation("roundtrip-lossy-flags-group-dropped", "with NO_EXTENDED_TYPES/V1 (Die printed as Group) or IGNORE_MEMORY (Group above a NUMA level kept without its memory) the exported Group level brings no structure, is merged at re-import and the second export differs",
                                       replay_text(desc, r))
                     else:
                         run.violation("roundtrip:%s:f=%d" % (why, fl), "export/import round trip fails (%s, flags %d) for %r" % (why, fl, desc[:80]), replay_text(desc, r))
